@@ -45,6 +45,11 @@ def runFrom (c : Cfg) : Stats → List Hit → Stats × List Int
 
 def runHits (c : Cfg) (hs : List Hit) : List Int := (runFrom c Stats.init hs).2
 
+/-- the service re-sends the tracepoint in a later UPDATE response: `convert_response` builds a new action with
+    fresh statistics for every tracepoint of every UPDATE, so the history of one tracepoint id is cut into
+    segments (the hits between two UPDATEs), each run from `Stats.init`. -/
+def runSegments (c : Cfg) (segs : List (List Hit)) : List Int := segs.flatMap (runHits c)
+
 /-! ### the statement, written independently of the code (the refinement target)
 
   A reference limiter kept from the property text: it remembers how many collections it made and when
